@@ -54,7 +54,10 @@ func hxDecodeLeaf(e *hxEnt) ([]byte, bool) {
 // hxC01Tag prefixes the labels of the tree assertions (e.g. "second render: ").
 var hxC01Tag string
 
-func hxA(c bool, label string) { svAssert(c, hxC01Tag+label) }
+// hxC01Pre marks the labels of a configuration (e.g. a caller-chosen boundary).
+var hxC01Pre string
+
+func hxA(c bool, label string) { svAssert(c, hxC01Pre+hxC01Tag+label) }
 
 // hxCheckLeaf compares one parsed leaf with what the caller supplied.
 func hxCheckLeaf(e *hxEnt, s hxLeafSpec) {
@@ -312,6 +315,10 @@ func HarnessC01Shape() {
 		specs = append(specs, hxLeafSpec{kind: 2, mtype: "application/octet-stream", name: name, enc: fenc, content: []byte(hxFileData[i])})
 	}
 	m := hxBuildC01(specs, menc, delMask, desc, freq)
+	if svParam("boundary", 0) == 1 && svPick("caller-boundary", 2) == 1 {
+		m.SetBoundary("caller_chosen.boundary")
+		hxC01Pre = "[caller-chosen boundary] "
+	}
 	root := hxRenderParse(m)
 	if p+e+a == 0 {
 		svReach("empty-message")
